@@ -288,3 +288,19 @@ Proof.
     eexists. split; [left; reflexivity|reflexivity].
   - eexists. split; [vm_compute; reflexivity|]. split; [left; split; reflexivity|reflexivity].
 Qed.
+
+(* soundness of two of the boolean clauses evaluated on the implementation's trace (Model/C13_Check.v) *)
+Lemma depth_okb_sound i r t : depth_okb i r t = true ->
+  forall q, In q (all_pins t) -> pty q = TShard -> (pdepth q < 0)%Z \/ covers (pcid q) (Z.to_nat (pdepth q)) = true.
+Proof.
+  unfold depth_okb. rewrite forallb_forall. intros H q Hq Hty. specialize (H q Hq).
+  unfold is_shard_pin in H. rewrite Hty in H. simpl in H. apply orb_true_iff in H.
+  destruct H as [H|H]; [left; now apply Z.ltb_lt|now right].
+Qed.
+
+Lemma failure_okb_sound i r t : failure_okb i r t = true -> is_ok r = false ->
+  forall q, In q (ok_pins t) -> pcid q <> CData (i_root i).
+Proof.
+  unfold failure_okb. intros H Hr q Hq Hc. rewrite Hr in H. rewrite forallb_forall in H. specialize (H q Hq).
+  rewrite Hc in H. simpl in H. now rewrite N.eqb_refl in H.
+Qed.
